@@ -5,10 +5,12 @@ sys.path.insert(0, ROOT)
 from mc.core import PROPS, bind_repo
 bind_repo()
 NOT_YET = "check not built yet in this session; the design in DESIGN.md applies bounded exhaustive exploration to it"
+# properties whose check is finished, silent on the unchanged tree, and committed
+READY = [l.strip() for l in open(os.path.join(ROOT, "READY")) if l.strip()]
 checks, na = [], []
 for pid, modname in sorted(PROPS.items()):
     path = os.path.join(ROOT, modname.replace(".", "/") + ".py")
-    if not os.path.exists(path):
+    if not os.path.exists(path) or pid not in READY:
         na.append({"property_id": pid, "reason": NOT_YET})
         continue
     mod = importlib.import_module(modname)
